@@ -135,7 +135,8 @@ def abstract_search(ob, mod, timeout_ms=15000):
                     model[label] = z3.is_true(v)
                 else:
                     model[label] = {"sexpr": v.sexpr()}
-        rep = mod.replay(ob, types.SimpleNamespace(model=model, abstract=True))
+        rmod = importlib.import_module("contracts." + ob.meta["dep"].lower()) if ob.meta.get("dep") else mod
+        rep = rmod.replay(ob, types.SimpleNamespace(model=model, abstract=True))
         if rep and rep.get("reproduced"):
             return model, rep
         # next valuation of the abstracted atoms
@@ -158,6 +159,19 @@ def run(prop, tier="quick", seed=0, replay_path=None):
     log = lambda *a: print(*a, file=sys.stderr, flush=True)
     try:
         mod.build(E, tier)
+        # contracts of callees this property's proof relies on are re-established in the same run: a change that
+        # breaks a callee's contract fails here under this property's name (dep:<property>)
+        for dep in getattr(mod, "DEPENDS", []):
+            dm = importlib.import_module("contracts." + dep.lower())
+            n0 = len(E.obligations)
+            saved = (E.oid_prefix, E.case_suffix, dict(E.contracts), set(E.inline), dict(E.loop_specs), dict(E.hooks))
+            E.oid_prefix = dep.upper() + "/"
+            E.contracts, E.inline, E.loop_specs, E.hooks = {}, set(), {}, {}
+            dm.build(E, tier)
+            E.oid_prefix, E.case_suffix, E.contracts, E.inline, E.loop_specs, E.hooks = saved
+            for o in E.obligations[n0:]:
+                o.id = "%s/dep:%s" % (prop, o.id)
+                o.meta["dep"] = dep.upper()
     except OutOfReach as e:
         status["out_of_reach"].append(str(e))
         log("OUT-OF-REACH:", e)
@@ -165,6 +179,9 @@ def run(prop, tier="quick", seed=0, replay_path=None):
         status["errors"].append(traceback.format_exc())
         log(traceback.format_exc())
     obs = E.obligations
+    if getattr(mod, "FILTER_BY_PROPERTY", False):
+        # shared models emit clauses for several properties; a check keeps the ones routed to it
+        obs = [o for o in obs if o.id.startswith(prop + "/")]
     ids = [o.id for o in obs]
     dup = {i for i in ids if ids.count(i) > 1}
     if dup:
@@ -248,6 +265,7 @@ def run(prop, tier="quick", seed=0, replay_path=None):
     known = [k for k in load_known() if k.get("property") == prop and k.get("kind") == "finding"]
     violations = []
     known_hits = []
+    pending_known = []
     for ob in failed:
         r = results[ob.id]
         match = None
@@ -255,33 +273,43 @@ def run(prop, tier="quick", seed=0, replay_path=None):
             if fnmatch.fnmatch(ob.id, k["obligation"]):
                 match = k
                 break
-        if match is not None and hasattr(mod, "known_witness"):
-            # the finding covers only its witness class: outside of it the obligation must still hold
-            w = mod.known_witness(match, ob)
-            if w is not None:
-                from .sym import Obligation
-                extra = Obligation(ob.id + "~minus-known", ob.props, ob.pc + [z3.Not(w)], ob.goal,
-                                   model_vars=ob.model_vars)
-                r2 = solve.solve_all([extra], timeout_s=budget)[extra.id]
-                if r2.status == "unsat":
-                    known_hits.append((ob, match, r))
-                    continue
-                elif r2.status == "sat":
-                    results[extra.id] = r2
-                    violations.append((extra, r2))
-                    continue
-                else:
-                    undecided.append(extra)
-                    results[extra.id] = r2
-                    continue
-        if match is not None:
+        w = mod.known_witness(match, ob) if (match is not None and hasattr(mod, "known_witness")) else None
+        if match is None:
+            violations.append((ob, r))
+        elif w is None:
             known_hits.append((ob, match, r))
         else:
-            violations.append((ob, r))
+            # the finding covers only its witness class: outside of it the obligation must still hold
+            from .sym import Obligation
+            extra = Obligation(ob.id + "~minus-known", ob.props, ob.pc + [z3.Not(w)], ob.goal, model_vars=ob.model_vars, meta=dict(ob.meta))
+            pending_known.append((ob, match, r, extra))
+    if pending_known:
+        res2 = solve.solve_all([e for _o, _m, _r, e in pending_known], timeout_s=budget)
+        for ob, match, r, extra in pending_known:
+            r2 = res2[extra.id]
+            results[extra.id] = r2
+            if r2.status == "unsat":
+                known_hits.append((ob, match, r))
+            elif r2.status == "sat":
+                violations.append((extra, r2))
+            else:
+                undecided.append(extra)
 
     out_lines = []
+    # findings recorded with a concrete witness are re-confirmed by replaying the witness on the real code
+    for k in known:
+        if k.get("witness_replay") and hasattr(mod, "known_replay"):
+            try:
+                rep = mod.known_replay(k)
+            except Exception:
+                rep = {"reproduced": False, "error": traceback.format_exc()}
+            if rep.get("reproduced"):
+                out_lines.append("KNOWN-FINDING: property=%s %s [witness replayed: %s]" % (prop, k["what"], rep.get("observed")))
+    seen_known = {}
     for ob, k, r in known_hits:
-        out_lines.append("KNOWN-FINDING: property=%s %s [obligation %s]" % (prop, k["what"], ob.id))
+        seen_known.setdefault(k["what"], []).append(ob.id)
+    for what, oids in seen_known.items():
+        out_lines.append("KNOWN-FINDING: property=%s %s [%d obligation(s), e.g. %s]" % (prop, what, len(oids), oids[0]))
     replay_dir = os.path.join(ROOT, "replays", prop)
     viol_records = []
     for ob, r in violations:
@@ -291,6 +319,13 @@ def run(prop, tier="quick", seed=0, replay_path=None):
                "path": ob.meta.get("trace"), "solver": r.solver, "solver_answers": r.answers, "model": r.model,
                "solver_output": r.outputs, "source_sha256": E.functions_run.get(ob.func, {}).get("sha256")}
         rep = getattr(r, "replayed", None)
+        if rep is None and ob.meta.get("dep"):
+            dm = importlib.import_module("contracts." + ob.meta["dep"].lower())
+            if hasattr(dm, "replay"):
+                try:
+                    rep = dm.replay(ob, r)
+                except Exception:
+                    rep = {"reproduced": False, "error": traceback.format_exc()}
         if rep is None and hasattr(mod, "replay"):
             try:
                 rep = mod.replay(ob, r)
